@@ -3,7 +3,7 @@
 import sys, json
 from collections import defaultdict
 
-GROUPS = ["res", "bank", "oblig", "bind", "index", "ctx", "queue", "req", "vol", "cb", "slash"]
+GROUPS = ["res", "bank", "oblig", "bind", "index", "ctx", "queue", "req", "vol", "cb", "slash", "gen"]
 
 def parse(path):
     """yield (hist_id, name, header_lines, ops{step:line}, res{step:res}, groups{step:{group:[lines]}}, viol[(step,prop,detail)])"""
